@@ -152,6 +152,9 @@ SCHEMES = {
     "generic": [[0., 2., 1., 1., 3., 4.], [1., 1., 0., 2., 2., 5.]],
     "b5-gt-t5": [[0., 1., .5, .5, 1., 2.], [1., 1., 0., 2., 2., 0.]],
     "unifying-x3": [[0., 3., 3., 0., 3., 3.], [3., 3., 0., 3., 3., 0.]],
+    "unifying-p0.25": [[0., 1., .25, 0., 1., .25], [.25, .25, 0., .25, .25, 0.]],     # scores are not multiples of 0.5
+    "unifying-x1e-4": [[0., 1e-4, 1e-4, 0., 1e-4, 1e-4], [1e-4, 1e-4, 0., 1e-4, 1e-4, 0.]],   # a valid scheme in small units
+    "unifying-p0": [[0., 1., 0., 0., 1., 0.], [0., 0., 0., 0., 0., 0.]],               # ties are free
 }
 
 DATASETS = {
@@ -175,6 +178,12 @@ DATASETS = {
     "equal-means-3-15": equal_means(5, [2, 2, 1]),            # totals 5 / 25 over 3 / 15 rankings
     "equal-means-5-15": equal_means(3, [2, 1, 1, 1, 1]),      # totals 6 / 18 over 5 / 15 rankings
     "equal-means-3-6": equal_means(2, [3, 2, 2]),             # totals 7 / 14 over 3 / 6 rankings
+    # same-size rankings over different domains (top-k lists): incomplete although all rankings have 2 elements
+    "topk": [[{1}, {2}], [{2}, {3}], [{3}, {1}], [{1}, {2}]],
+    # a string-typed universe whose cyclic component is made of digit names of different lengths ("8" < "9" < "10" as
+    # numbers, "10" < "8" < "9" as strings)
+    "digit-names-mixed-lengths": [[{"a"}, {"8"}, {"9"}, {"10"}, {"b"}], [{"a"}, {"9"}, {"10"}, {"8"}, {"b"}],
+                                  [{"a"}, {"10"}, {"8"}, {"9"}, {"b"}], [{"a"}, {"8"}, {"9"}, {"10"}, {"b"}]],
     "tie3": [[{1, 2}, {3}], [{1, 2}, {3}], [{2}, {1}, {3}]],
     "single": [[{7}], [{7}]],
     "five-cycle-ties": [[{1}, {2}, {3}, {4}, {5}], [{3, 4}, {5}, {1}, {2}], [{5}, {1, 2, 3}], [{2}, {4}], [{4}, {5}, {3}, {2}, {1}]],
